@@ -16,14 +16,31 @@ Identifier forms in scope (property: "proto.<protocol>.<category>.<name> and sho
     C.N           -> candidates [C.N, N, C]
     proto.P.N     -> candidates [proto.P.N, N]          (no category is demanded for this form)
     N             -> candidates [N]
-Registry: the live one of pytezos.rpc.errors + synthetic classes registered for every subset of the candidates
-(and decoy keys that must never match: `proto`, P, `proto.P`, `proto.P.C`, `P.C`, `P.C.N`), removed afterwards.
+Registry: synthetic classes registered for every subset of the candidates (and decoy keys that must never match: `proto`,
+P, `proto.P`, `proto.P.C`, `P.C`, `P.C.N`), removed afterwards, in four environments (widened by the input audit):
+    on top of the live registry of pytezos.rpc.errors  /  in a SCRATCH registry (the dict emptied first, restored afterwards:
+    the registry is then exactly the chosen keys - empty for the empty subset, a single category / final component / full id,
+    keys that are suffixes and prefixes of each other)
+  x each class declared with a str error_id  /  with a LIST of ids (the key next to an unrelated alias, in both positions).
+The oracle does not read the registry: the expected class of a synthetic key is the class object this file created for it
+(the one registered LAST for that key), the expected class of a live key comes from LIVE_TABLE, written out below from the
+documentation of pytezos.rpc.errors.
 """
 from __future__ import annotations
 import itertools
 from vlib.runner import Check
 
 REPLAY = 'props.C27_R:replay'
+
+# the error classes pytezos documents (rpc/errors.py), written out: id -> class name.  NOT read from RpcError.__handlers__.
+LIVE_TABLE = {
+    'michelson_v1.bad_contract_parameter': 'MichelsonBadContractParameter',
+    'michelson_v1.bad_return': 'MichelsonBadReturn',
+    'michelson_v1': 'MichelsonError',
+    'tez': 'TezArithmeticError',
+    'script_rejected': 'MichelsonScriptRejected',
+}
+ENVS = [('live', 'str'), ('live', 'list'), ('scratch', 'str'), ('scratch', 'list')]
 
 
 def spec_candidates(error_id: str):
@@ -53,35 +70,52 @@ def decoys(error_id: str):
 
 
 class _Registry:
-    """Temporarily registers synthetic RpcError subclasses for the given keys in the live registry."""
+    """Temporarily registers synthetic RpcError subclasses for the given keys: on top of the live registry or (scratch) in the
+    emptied registry dict; each class declared with error_id=<key> or with error_id=[<key>, <unrelated alias>] (both orders)."""
 
-    def __init__(self, keys):
+    def __init__(self, keys, env=('live', 'str')):
         self.keys = list(keys)
+        self.scratch, self.as_list = env[0] == 'scratch', env[1] == 'list'
         self.saved = {}
         self.classes = {}
 
     def __enter__(self):
         from pytezos.rpc.node import RpcError
         import pytezos.rpc.errors  # noqa: the live registry must be loaded
-        for k in self.keys:
-            if k in RpcError.__handlers__:
-                self.saved[k] = RpcError.__handlers__[k]
-            self.classes[k] = type('Syn_' + ''.join(ch if ch.isalnum() else '_' for ch in k), (RpcError,), {}, error_id=k)
+        self.saved = dict(RpcError.__handlers__)
+        if self.scratch:
+            RpcError.__handlers__.clear()
+        for j, k in enumerate(self.keys):
+            alias = f'zz-alias-{j}.of.nothing'
+            eid = ([k, alias] if j % 2 else [alias, k]) if self.as_list else k
+            self.classes[k] = type('Syn_' + ''.join(ch if ch.isalnum() else '_' for ch in k), (RpcError,), {}, error_id=eid)
         return self
+
+    def expected(self, key):
+        """the class a request for exactly this key must be mapped to, or None: synthetic classes first (registered last),
+        then the documented live classes (unless the registry was emptied), then live keys this file does not know"""
+        from pytezos.rpc.node import RpcError
+        if key in self.classes:
+            return self.classes[key]
+        if self.scratch:
+            return None
+        if key in LIVE_TABLE:
+            import pytezos.rpc.errors as live
+            return getattr(live, LIVE_TABLE[key], ('missing class', LIVE_TABLE[key]))
+        v = self.saved.get(key)
+        return v if v is not None and not key.startswith('zz-alias-') else None
 
     def __exit__(self, *a):
         from pytezos.rpc.node import RpcError
-        for k in self.keys:
-            RpcError.__handlers__.pop(k, None)
+        RpcError.__handlers__.clear()
         RpcError.__handlers__.update(self.saved)
         return False
 
 
-def _evaluate(errors, registered, decoy_keys=()):
-    """-> (ok, clause, info).  registered: synthetic keys to register (besides the live registry)."""
+def _evaluate(errors, registered, decoy_keys=(), env=('live', 'str')):
+    """-> (ok, clause, info).  registered: synthetic keys to register (besides the live registry, or alone if env is scratch)."""
     from pytezos.rpc.node import RpcError
-    with _Registry(list(registered) + list(decoy_keys)):
-        handlers = dict(RpcError.__handlers__)
+    with _Registry(list(registered) + list(decoy_keys), env) as reg:
         try:
             res = RpcError.from_errors([dict(e) for e in errors])
         except Exception as x:  # noqa
@@ -93,22 +127,23 @@ def _evaluate(errors, registered, decoy_keys=()):
             last = errors[-1]
             want = RpcError
             for k in spec_candidates(last['id']):
-                if k in handlers:
-                    want = handlers[k]
+                if reg.expected(k) is not None:
+                    want = reg.expected(k)
                     break
             want_args = (last,)
         if type(res) is not want:
-            hit = [k for k in spec_candidates(errors[-1]['id']) if k in handlers] if errors else []
+            hit = [k for k in spec_candidates(errors[-1]['id']) if reg.expected(k) is not None] if errors else []
             return False, 'from_errors::ensures.most_specific_class', \
-                f'returned {type(res).__name__}, expected {want.__name__} (candidates in order ' \
-                f'{spec_candidates(errors[-1]["id"]) if errors else []}, registered among them {hit})'
+                f'returned {type(res).__name__}, expected {getattr(want, "__name__", want)} (candidates in order ' \
+                f'{spec_candidates(errors[-1]["id"]) if errors else []}, registered among them {hit}; registry {env[0]}, ' \
+                f'classes declared with a {env[1]} error_id)'
         if want_args is not None and res.args != want_args:
             return False, 'from_errors::ensures.carries_last_error', f'args {res.args!r}, expected {want_args!r}'
     return True, '', ''
 
 
 def replay(case):
-    ok, clause, info = _evaluate(case['errors'], case.get('registered', []), case.get('decoys', []))
+    ok, clause, info = _evaluate(case['errors'], case.get('registered', []), case.get('decoys', []), tuple(case.get('env', ('live', 'str'))))
     return (not ok), (f'{clause}: {info}' if not ok else 'from_errors returns the most specific registered class')
 
 
@@ -136,12 +171,14 @@ def run_R(ck: Check):
     import pytezos.rpc.errors as live
     ck.function(RpcError.from_errors)
     ck.function(_gen_error_variants)
-    ck.assume('identifier forms in scope: proto.P.C.N, C.N, proto.P.N, N (dot-free chunks); for proto.P.N no category is '
-              'demanded; longer identifiers are outside the quantifier of the property')
+    ck.function(RpcError.__init_subclass__)
+    ck.assume('identifier forms in scope: proto.P.C.N, C.N, proto.P.N, N (dot-free chunks, empty chunks included); for proto.P.N no '
+              'category is demanded; longer identifiers are outside the quantifier of the property; every error carries an id')
     ck.rule('R: every identifier form x protocols x (live + synthetic) category/name chunks x every subset of its candidate '
             'keys registered (synthetic classes, removed afterwards) x decoy keys registered or not x position of the error in '
-            'lists of 1..3 errors; class = (form, expected winner role, set of registered roles, list length)')
-    live_keys = sorted(k for k, v in RpcError.__handlers__.items() if v.__module__ == live.__name__)
+            'lists of 1..6 errors x registry (on top of the live one / scratch: exactly the chosen keys, empty included) x class '
+            'declared with a str / a list of ids; class = (form, expected winner role, set of registered roles, list length, registry)')
+    live_keys = sorted(LIVE_TABLE)
     ck.bound('live_registry', live_keys)
     protocols = ['alpha', '005-PsBabyM1', 'PtSeouLo']
     seen = set()
@@ -150,14 +187,27 @@ def run_R(ck: Check):
         if (clause, w) in seen:
             return
         seen.add((clause, w))
-        ck.violation(clause, f"errors={case['errors']!r} registered={case['registered']!r} decoys={case['decoys']!r}: {info}",
-                     case=case, replay=REPLAY, wclass=w)
+        ck.violation(clause, f"errors={case['errors']!r} registered={case['registered']!r} decoys={case['decoys']!r} "
+                             f"env={case.get('env')!r}: {info}", case=case, replay=REPLAY, wclass=w)
 
-    # (1) empty list
-    ok, clause, info = _evaluate([], [])
-    ck.evaluate('empty list', sample=dict(errors=[], registered=[], decoys=[]))
-    if not ok:
-        report(clause, info, dict(errors=[], registered=[], decoys=[]), 'empty list')
+    # (0) the documented classes are registered under the documented ids (independent table, not the registry itself)
+    bad = {k: v for k, v in LIVE_TABLE.items()
+           if getattr(RpcError.__handlers__.get(k), '__name__', None) != v or RpcError.__handlers__[k].__module__ != live.__name__}
+    ck.evaluate('documented live classes')
+    if bad:
+        ck.violation('registry::ensures.documented_classes_registered_under_documented_ids',
+                     f'pytezos.rpc.errors: expected id -> class {bad}, registry has '
+                     f'{ {k: getattr(RpcError.__handlers__.get(k), "__name__", None) for k in bad} }',
+                     case=dict(errors=[{'id': 'proto.alpha.' + sorted(bad)[0]}], registered=[], decoys=[], env=['live', 'str']),
+                     replay=REPLAY, wclass='live table ' + ','.join(sorted(bad)))
+
+    # (1) empty list, in every registry environment
+    for env in ENVS:
+        for reg in ([], ['name']):
+            ok, clause, info = _evaluate([], reg, (), env)
+            ck.evaluate(f'empty list registry={env[0]}', sample=dict(errors=[], registered=reg, decoys=[], env=list(env)) if env == ENVS[0] else None)
+            if not ok:
+                report(clause, info, dict(errors=[], registered=reg, decoys=[], env=list(env)), f'empty list {env[0]}')
 
     # (2) synthetic registries: every subset of the candidates of every form
     chunksets = [('cat', 'name'), ('michelson_v1', 'name'), ('cat', 'script_rejected'), ('tez', 'tez')]
@@ -166,30 +216,34 @@ def run_R(ck: Check):
         for p in protocols:
             ids += [f'proto.{p}.{c}.{n}', f'proto.{p}.{n}']
         ids += [f'{c}.{n}', n]
+    # degenerate members of the same forms: empty chunks
+    ids += ['', 'cat.', '.name', 'proto.alpha..name', 'proto..cat.name', 'proto.alpha.cat.']
     ids = list(dict.fromkeys(ids))
     ck.bound('synthetic_ids', len(ids))
     for eid in ids:
         cands = spec_candidates(eid)
-        live_hit = [k for k in cands if k in live_keys]
-        for r in range(len(cands) + 1):
-            for sub in itertools.combinations(cands, r):
-                for dk in ([], decoys(eid)):
-                    if dk == [] and decoys(eid) == [] and False:
-                        continue
-                    for errors in ([{'id': eid, 'kind': 'temporary'}],
-                                   [{'id': 'tez.overflow', 'kind': 'permanent'}, {'id': eid, 'kind': 'temporary', 'with': {'int': '1'}}],
-                                   [{'id': eid}, {'id': 'proto.alpha.michelson_v1.bad_return'}, {'id': eid, 'x': 1}]):
+        for env in ENVS:
+            live_hit = [k for k in cands if k in live_keys] if env[0] == 'live' else []
+            for r in range(len(cands) + 1):
+                for sub in itertools.combinations(cands, r):
+                    for dk in ([], decoys(eid)):
                         if dk and not decoys(eid):
                             continue
-                        registered_roles = set(sub) | set(live_hit)
-                        w = _wclass(eid, registered_roles) + (' +decoys' if dk else '')
-                        case = dict(errors=errors, registered=list(sub), decoys=list(dk))
-                        ok, clause, info = _evaluate(errors, sub, dk)
-                        ck.evaluate(f'{w} len={len(errors)}', sample=case if len(errors) == 2 and len(sub) == 2 and len(ck.samples) < 4 else None)
-                        if not ok:
-                            report(clause, info, case, w)
+                        for errors in ([{'id': eid, 'kind': 'temporary'}],
+                                       [{'id': 'tez.overflow', 'kind': 'permanent'}, {'id': eid, 'kind': 'temporary', 'with': {'int': '1'}}],
+                                       [{'id': eid}, {'id': 'proto.alpha.michelson_v1.bad_return'}, {'id': eid, 'x': 1}],
+                                       [{'id': 'michelson_v1.bad_return'}, {'id': eid}, {'id': 'tez'}, {'id': 'x.y'}, {'id': 'script_rejected'},
+                                        {'id': eid, 'kind': 'permanent', 'location': 7}]):
+                            registered_roles = set(sub) | set(live_hit)
+                            w = _wclass(eid, registered_roles) + (' +decoys' if dk else '') + \
+                                ('' if env == ENVS[0] else f' registry={env[0]} error_id={env[1]}')
+                            case = dict(errors=errors, registered=list(sub), decoys=list(dk), env=list(env))
+                            ok, clause, info = _evaluate(errors, sub, dk, env)
+                            ck.evaluate(f'{w} len={len(errors)}', sample=case if len(errors) == 2 and len(sub) == 2 and len(ck.samples) < 4 else None)
+                            if not ok:
+                                report(clause, info, case, w)
 
-    # (3) the live registry alone: identifiers assembled from its own chunks and unregistered ones
+    # (3) the live registry alone: identifiers assembled from its documented chunks and unregistered ones
     cats = sorted({k.split('.')[0] for k in live_keys} | {'contract', 'gas_exhausted'})
     names = sorted({k.split('.')[-1] for k in live_keys} | {'runtime_error', 'balance_too_low', 'operation'})
     for c in cats:
@@ -198,7 +252,7 @@ def run_R(ck: Check):
                 errors = [{'id': 'proto.alpha.tez.addition_overflow'}, {'id': eid, 'kind': 'temporary'}]
                 cands = spec_candidates(eid)
                 w = _wclass(eid, {k for k in cands if k in live_keys}) + ' live'
-                case = dict(errors=errors, registered=[], decoys=[])
+                case = dict(errors=errors, registered=[], decoys=[], env=['live', 'str'])
                 ok, clause, info = _evaluate(errors, [], [])
                 ck.evaluate(w, sample=case if eid == 'proto.alpha.michelson_v1.script_rejected' else None)
                 if not ok:
